@@ -207,6 +207,8 @@ def generate(tier, rng):
                         continue
                     its = [items[0]] + [spec(it['method'], spec_params(it) if isinstance(spec_params(it), list) else ()) for it in items[1:]]
                 yield loop_case(notation, its, rng.choice(clients), gens[r % len(gens)] if n > 1 else rng.choice(gens))
+                if r % 3 == 0 and gens[r % len(gens)]['k'] == 'sequential':
+                    yield loop_case(notation, its, dict(rng.choice(clients[:2]), batch_strict=False), gens[r % len(gens)])
     # batches made only of notifications
     for n in (1, 2, 3):
         items = [spec(rng.choice(['echo', 'fail_rpc', 'nosuch', 'noargs']), (1,) if i % 2 else (), {}, notify=True) for i in range(n)]
@@ -376,6 +378,11 @@ def run_impl(c):
                     pyrandom.seed(g['seed'])
                 t = _Loop(c['server'], server_async, coro)
                 kw2 = dict(kw, **IC.client_kwargs(cl))
+                if cl.get('batch_strict') is False:
+                    # a client whose batches do not check for duplicate ids themselves (a supported constructor argument): with
+                    # distinct ids everything else is as with the default batch class
+                    import functools
+                    kw2['batch_request_class'] = functools.partial(pjrpc.BatchRequest, strict=False)
                 client = (AsyncC if is_async else SyncC)(t, **kw2)
                 try:
                     v = invoke(client, c['notation'], c['items'], is_async)
